@@ -290,7 +290,9 @@ pub(crate) fn expand_mask<const L: usize>(gamma1: i32, rho: &[u8; 64], mu: u16) 
     for r in 0..u16::try_from(L).expect("Alg 34: try_from1 fail") {
         //
         // 3: rho′ ← rho || IntegerToBytes(mu + r, 2)
-        let n = mu + r; // This will perform overflow check in debug, which removes need for above assert
+        // IntegerToBytes(x, 2) encodes x mod 2^16 (FIPS 204 Alg. 11), so the counter wraps; an accepted
+        // (crafted) private key can need more than 2^16/L iterations of the signing loop
+        let n = mu.wrapping_add(r);
 
         // 4: v ← H(rho′, 32*c)
         let mut xof = h256_xof(&[rho, &n.to_le_bytes()]);
